@@ -154,7 +154,7 @@ def write_evidence(pid, tier, seed, spec, obligations, violations, searches, wal
                 counterexample_search_cases=sum(s.get('cases', 0) for s in searches),
                 searches=[dict(name=s.get('name'), cases=s.get('cases'), seconds=s.get('seconds')) for s in searches]),
             obligation_list=[dict(id=o['id'], status=o['status'], engine=o.get('engine'), seconds=o.get('seconds')) for o in obligations],
-            tree=ctx.hash, notes=notes[:20],
+            tree=ctx.hash, notes=notes[:80],
             explanation=spec.get('explanation', ''),
         ),
         assumptions=spec.get('assumptions', []),
